@@ -108,55 +108,12 @@ def run(ctx):
 
     # ------------------------------------------------------------------ C01-innermost
     ctx.rule("C01-innermost", "lookup finds the innermost binding; define writes only the own frame")
-    for name in ("get", "get_mut"):
-        f = fb.find("environment::LexicalScope::" + name)
-        for found in (False, True):
-            for has_parent in (False, True):
-                env = {1: [absint.Enum(1 if has_parent else 0, [absint.UNKNOWN]), absint.UNKNOWN]}
-                trace = []
-
-                def oracle(ff, bb, tt, env, found=found):
-                    c = callee(tt) or ""
-                    trace.append(c)
-                    if c.endswith("contains_key"):
-                        return found
-                    if c.endswith("HashMap::get") or c.endswith("HashMap::get_mut"):
-                        return absint.Enum(1 if found else 0, [absint.UNKNOWN])
-                    return None
-                try:
-                    kind, b, env2 = absint.run_fragment(f, 0, env, oracle=oracle)
-                    r = env2.get(0)
-                    res = getattr(r, "name", None) if isinstance(r, absint.Enum) else ("parent-result" if any(
-                        c == f.name for c in trace) else "?")
-                except (absint.Stuck, absint.Loop) as e:
-                    res = "stuck"
-                rec = any(c == f.name for c in trace)
-                want = ("Some", False) if found else (("parent-result", True) if has_parent else ("None", False))
-                ctx.inst("C01-innermost", "%s/found=%s,parent=%s" % (name, found, has_parent), {"result": res, "asks_parent": rec})
-                if (res, rec) != want:
-                    ctx.report("C01-innermost", "%s/found=%s,parent=%s" % (name, found, has_parent),
-                               "LexicalScope::%s(found here=%s, has parent=%s) -> %s%s; expected %s%s" % (
-                                   name, found, has_parent, res, " (asks parent)" if rec else "", want[0],
-                                   " (asks parent)" if want[1] else ""), where_of(f))
-        # the recursive call is made on the parent with the same name
-        pf = Prov(f)
-        for b, t in f.calls():
-            if callee(t) == f.name:
-                root, path = field_path(f, _through_deref(f, t["args"][0]))
-                nr = pf.arg_roots(t["args"][1])
-                if not (root == 1 and "parent" in [str(x) for x in _named_path(f, _through_deref(f, t["args"][0]))]) or nr != {2}:
-                    ctx.report("C01-innermost", name + "/parent-call", "the recursive lookup is not `parent.%s(name)`" % name, where_of(f, t))
-    d = fb.find("environment::LexicalScope::define")
-    ins = [(b, t) for b, t in d.calls() if callee_matches(t, "HashMap::insert")]
-    others = [callee(t) for _, t in d.calls() if callee(t) in ("environment::LexicalScope::define", "environment::LexicalScope::set")]
-    pd = Prov(d, passthrough_extra=("cell::RefCell::borrow_mut",))
-    named = [str(x) for b, t in ins for x in _named_path(d, _borrow_source(d, t["args"][0]))]
-    ctx.inst("C01-innermost", "define", {"inserts": len(ins), "fields": named, "recursion": others})
-    if len(ins) != 1 or "definitions" not in named or "parent" in named or others:
-        ctx.report("C01-innermost", "define/target", "define must insert into the own frame's `definitions` only", where_of(d))
-    else:
-        if pd.arg_roots(ins[0][1]["args"][1]) != {2} or pd.arg_roots(ins[0][1]["args"][2]) != {3}:
-            ctx.report("C01-innermost", "define/args", "define does not insert (name, value)", where_of(d, ins[0][1]))
+    from . import scopes
+    nrows = 0
+    for name in ("get", "get_mut", "define"):
+        nrows += scopes.table(ctx, fb, "C01-innermost", name)
+    if nrows < 24:
+        ctx.report("C01-innermost", "floor", "only %d rows of the scope-chain tables were evaluated" % nrows)
 
     # ------------------------------------------------------------------ C01-truthiness
     ctx.rule("C01-truthiness", "only #f is false: as_boolean table; every conditional branches on as_boolean(test)")
